@@ -91,7 +91,8 @@ def run(ctx):
                             "`unseen`) between IMAP commands from selected, idling and unselected sessions, management-task "
                             "polls, flag changes and expunges (freed message numbers get reused by later deliveries); "
                             "non-trivial = a delivery happened after an expunge in the same mailbox (number reuse) or while a "
-                            "session was idling")
+                            "session was idling. Plus: histories with deliveries the server cannot see yet (mtime unchanged), and deliveries "
+                            "injected at the entry of the Mailbox method that carries out a command (STORE/FETCH/COPY/EXPUNGE/MOVE/APPEND)")
     ok = ctx.prove("Properties/C13.v")
     n = 400 if ctx.thorough else 64
     hs = mboxx.generate(ctx, n, 70 if ctx.thorough else 45, mix=MIX)
